@@ -986,6 +986,17 @@ func c16Run(c *vk.Case) {
 	case "special-names":
 		d := decls[0]
 		mixed := c.Index%32 == 7
+		// the same for the table's own name: upper case, a dash (both pass the configuration's character check), a
+		// reserved word
+		tableSpecial := ""
+		switch c.Index % 32 {
+		case 15:
+			tableSpecial, d.Table = "table-mixed-case", "Transfers"+strings.ToUpper(namePoolTbl[0][2:])
+		case 23:
+			tableSpecial, d.Table = "table-with-dash", "erc20-"+namePoolTbl[0]
+		case 31:
+			tableSpecial, d.Table = "table-reserved-word", vk.Pick(r, []string{"order", "user", "table", "end"})
+		}
 		words := append([]string(nil), c16Reserved...)
 		vk.Shuffle(r, words)
 		wi := 0
@@ -1035,6 +1046,10 @@ func c16Run(c *vk.Case) {
 		sc.special = "reserved"
 		if mixed {
 			sc.special = "mixed-case"
+		}
+		if tableSpecial != "" {
+			sc.special += "+" + tableSpecial
+			c.Obs("special_table_name_scenarios", 1)
 		}
 		if !mixed {
 			// a dependent integration whose reference filter names a reserved-word column
